@@ -60,6 +60,16 @@ public:
       QUILL_THROW(QuillError("`%X` as format modifier is not currently supported in format: " + _timestamp_format));
     }
 
+    // Modifiers that expand to hours, minutes or seconds but can not be split into cacheable parts
+    // would go stale between two recalculations, for those we always call strftime
+    for (char const* modifier : {"%c", "%Ec", "%EX", "%OH", "%OI", "%OM", "%OS"})
+    {
+      if (_timestamp_format.find(modifier) != std::string::npos)
+      {
+        _always_use_strftime = true;
+      }
+    }
+
     // We first look for some special format modifiers and replace them
     _replace_all(_timestamp_format, "%r", "%I:%M:%S %p");
     _replace_all(_timestamp_format, "%R", "%H:%M");
@@ -75,7 +85,7 @@ public:
     // First we check for the edge case where the given timestamp is back in time. This is when
     // the timestamp provided is less than our cached_timestamp. We only expect to format timestamps
     // that are incrementing not those back in time. In this case we just fall back to calling strfime
-    if (timestamp < _cached_timestamp)
+    if ((timestamp < _cached_timestamp) || _always_use_strftime)
     {
       _fallback_formatted = _safe_strftime(_timestamp_format.data(), timestamp, _time_zone).data();
       return _fallback_formatted;
@@ -447,6 +457,9 @@ private:
 
   /** gmtime or localtime */
   Timezone _time_zone{Timezone::GmtTime};
+
+  /** True when the format contains a time modifier that can not be cached */
+  bool _always_use_strftime{false};
 };
 } // namespace detail
 
